@@ -33,6 +33,7 @@ servers == hdr.servers
 tab     == hdr.tab
 params  == hdr.params
 trno    == hdr.trno
+PvOff   == IF "pvoff" \in DOMAIN hdr.params THEN {hdr.params.pvoff[i] : i \in 1..Len(hdr.params.pvoff)} ELSE {}   \* servers running with PreVoteDisabled
 
 EmptyNode == [up |-> FALSE, inc |-> 0, ct |-> 0, vt |-> 0, vc |-> "", dcommit |-> 0, role |-> "F", term |-> 0,
               leader |-> "", commit |-> 0, applied |-> 0, last |-> 0, llog |-> <<0, 0>>, lsnap |-> <<0, 0>>,
@@ -125,9 +126,11 @@ AgreedConflicts(o, dl, ds, ag) ==
 
 -----------------------------------------------------------------------------
 (* C04 predicates *)
-LogMatchingPair(la, lb) ==
-  \A i \in (DOMAIN la) \cap (DOMAIN lb) :
-     la[i][1] = lb[i][1] => \A k \in (DOMAIN la) \cap (DOMAIN lb) : k <= i => la[k] = lb[k]
+\* entries at or below a server's snapshot index are superseded by the snapshot: the store may still hold them
+\* (trailing logs, a prefix left behind by InstallSnapshot / user Restore) but they are no longer part of its log
+LogMatchingPair(la, sa, lb, sb) ==
+  LET D == {i \in (DOMAIN la) \cap (DOMAIN lb) : i > sa /\ i > sb}
+  IN \A i \in D : la[i][1] = lb[i][1] => \A k \in D : k <= i => la[k] = lb[k]
 TermsMonotone(lg) == \A i, j \in DOMAIN lg : i < j => lg[i][1] <= lg[j][1]
 
 AESuccessOK(m, postLog, resp) ==
@@ -190,12 +193,23 @@ DoReset(ln) ==
   /\ g' = GhostInit(S)
   /\ Quiet
 
+(* the configuration a durable image prescribes: the newest configuration entry above the snapshot, else the snapshot's *)
+ExpCfg(lg, sn) ==
+  LET si == SnapIdxOf(sn)
+      C  == {k \in DOMAIN lg : k > si /\ lg[k][2] = "cfg"}
+  IN IF C # {} THEN <<MaxSet(C), lg[MaxSet(C)][3]>>
+     ELSE IF Len(sn) > 0 THEN <<sn[1].cfgidx, sn[1].cfg>> ELSE <<0, NoCfg>>
+
 (* ---- step predicates on one handled RPC (pre, request, post, response) ---- *)
 StepPreds(n, h, pre, preLog, post, postLog, postSn) ==
   LET regrant == h.kind = "rv" /\ h.regrant IN
   IF h.kind \in {"ae", "hb"} /\ Has(h, "resp") THEN
       (IF AESuccessOK(AEReq(h.req), postLog, h.resp) THEN {} ELSE {<<"C04", "AESuccess", <<n, h.id>>>>})
       \cup (IF AETruncateOK(preLog, AEReq(h.req), postLog, SnapIdxOf(postSn)) THEN {} ELSE {<<"C04", "AETruncate", <<n, h.id>>>>})
+      \* the configuration in force follows the log: after appending / truncating it is the newest configuration
+      \* entry still in the log (a discarded, never committed configuration leaves no effect)
+      \cup (IF <<pre.cli, pre.cl>> = ExpCfg(preLog, dsnaps[n]) /\ <<post.cli, post.cl>> # ExpCfg(postLog, postSn)
+            THEN {<<"C07", "ConfigurationNotFromLog", <<n, h.id, <<post.cli, post.cl>>, ExpCfg(postLog, postSn)>>>>} ELSE {})
   ELSE IF h.kind = "rv" /\ Has(h, "resp") /\ h.resp.granted THEN
       (IF UpToDate(h.req, LastEntry(pre)) \/ regrant THEN {} ELSE {<<"C06", "GrantNotUpToDate", <<n, h.id, h.req, LastEntry(pre)>>>>})
       \cup (IF pre.cl = NoCfg \/ IsVoter(tab, pre.cl, h.req.cand) THEN {} ELSE {<<"C06", "GrantNonVoter", <<n, h.id>>>>})
@@ -228,9 +242,7 @@ Conformance(n, h, pre, preLog, post, postLog) ==
 (* ---- what a restart must produce from the durable image (C10) ---- *)
 RestartPreds(n, pre, post, lg, sn) ==
   LET si    == SnapIdxOf(sn)
-      C     == {k \in DOMAIN lg : k > si /\ lg[k][2] = "cfg"}
-      expCl == IF C # {} THEN <<MaxSet(C), lg[MaxSet(C)][3]>>
-               ELSE IF Len(sn) > 0 THEN <<sn[1].cfgidx, sn[1].cfg>> ELSE <<0, NoCfg>>
+      expCl == ExpCfg(lg, sn)
       ll    == LogLast(lg)
       expLL == IF ll = 0 THEN <<0, 0>> ELSE <<ll, lg[ll][1]>>
       again == pre.inc > 0      \* not the first start: pre is the image left by the crash / shutdown
@@ -284,7 +296,7 @@ DoState(ln) ==
                        ELSE {})
       vLog   == IF ~Has(st, "log") THEN {} ELSE
                 (IF TermsMonotone(postLog) THEN {} ELSE {<<"C04", "TermsNotMonotone", <<n>>>>})
-                \cup {<<"C04", "LogMatching", <<n, m>>>> : m \in {x \in servers \ {n} : ~LogMatchingPair(postLog, dlog[x])}}
+                \cup {<<"C04", "LogMatching", <<n, m>>>> : m \in {x \in servers \ {n} : ~LogMatchingPair(postLog, SnapIdxOf(postSn), dlog[x], SnapIdxOf(dsnaps[x]))}}
                 \cup {<<"C03", "CommittedEntryRewritten", <<n, i, preLog[i], postLog[i]>>>> :
                         i \in {k \in DOMAIN known : k \in DOMAIN preLog /\ preLog[k] = known[k] /\ k \in DOMAIN postLog /\ postLog[k] # preLog[k]}}
                 \cup {<<"C03", "CommittedEntryTruncated", <<n, i>>>> :
@@ -302,7 +314,7 @@ DoState(ln) ==
                 THEN {<<"C18", "LeaderNeverLedThisTerm", <<n, post.leader, post.term>>>>} ELSE {}
       \* a self-initiated term increase (not learnt from anybody, not a leadership transfer) needs pre-vote
       \* grants for that term from a quorum of the server's voters -- which an isolated server cannot get
-      vInfl  == IF post.ct > pre.ct /\ sameInc /\ params.prevote /\ ~pre.xfer /\ ~post.xfer /\ post.ct > g.seenTerm[n]
+      vInfl  == IF post.ct > pre.ct /\ sameInc /\ params.prevote /\ n \notin PvOff /\ ~pre.xfer /\ ~post.xfer /\ post.ct > g.seenTerm[n]
                    /\ Cardinality({v \in Voters(tab, pre.cl) : v = n \/ <<n, post.ct, v>> \in g.pvGrants}) < QuorumSize(tab, pre.cl)
                 THEN {<<"C14", "TermRaisedWithoutPreVoteQuorum", <<n, pre.ct, post.ct, {x \in g.pvGrants : x[1] = n /\ x[2] = post.ct}>>>>} ELSE {}
       \* a server that has durably recorded itself as the candidate voted for in its current term has voted for itself
@@ -356,15 +368,16 @@ DoHandle(ln) ==
   LET n  == ln.n
       gr == IF ln.kind = "rv" /\ Has(ln, "resp") /\ ln.resp.granted THEN {<<n, ln.req.term, ln.req.cand>>} ELSE {}
       ok == ln.kind \in {"ae", "hb", "is"} /\ Has(ln, "resp") /\ ln.resp.ok
+      dupd == Has(ln, "dup") /\ ln.dup     \* a duplicate injected by the network, not a transfer the leader repeated
       V  == {<<"C06", "TwoVotesInTerm", <<n, x[2], x[3], ln.req.cand>>>> :
                x \in {y \in g.grants : gr # {} /\ y[1] = n /\ y[2] = ln.req.term /\ y[3] # ln.req.cand}}
-            \cup (IF ln.kind = "is" /\ ok /\ g.isrep[n][1] = ln.req.idx /\ g.isrep[n][2] >= 2
+            \cup (IF ln.kind = "is" /\ ok /\ ~dupd /\ g.isrep[n][1] = ln.req.idx /\ g.isrep[n][2] >= 2
                   THEN {<<"C12", "SameSnapshotInstalledAgain", <<n, ln.req.idx, g.isrep[n][2] + 1>>>>} ELSE {})
   IN /\ g' = [g EXCEPT !.hpend[n] = Append(@, [regrant |-> (gr # {} /\ gr \subseteq g.grants)] @@ ln),
                        !.grants = @ \cup gr,
                        !.seenTerm[n] = IF ln.kind \in {"ae", "hb", "is", "rv"} THEN Max(@, ln.req.term) ELSE @,
                        !.lastAck = IF ok THEN [p \in {<<ln.src, ln.req.term, n>>} |-> l] @@ @ ELSE @,
-                       !.isrep[n] = IF ln.kind = "is" /\ ok
+                       !.isrep[n] = IF ln.kind = "is" /\ ok /\ ~dupd
                                     THEN (IF @[1] = ln.req.idx THEN <<@[1], @[2] + 1>> ELSE <<ln.req.idx, 1>>)
                                     ELSE IF ln.kind = "ae" /\ ok /\ Len(ln.req.entries) > 0 THEN <<0, 0>> ELSE @]
      /\ Judge(V, {}) /\ Keep
@@ -410,9 +423,15 @@ DoStore(ln) ==
       \* dispatchLogs precedes commitment.setConfiguration), then switches: both are "in force" at this instant
       ag1  == IF isSL THEN FoldCommitted(obs, dl2, dsnaps, g.agreed, ActiveLeaders(obs)) ELSE g.agreed
       ag2  == IF isSL THEN FoldCommitted(o2, dl2, dsnaps, ag1, ActiveLeaders(o2)) ELSE g.agreed
+      \* every configuration a leader appends differs from its predecessor in the log by at most one voter
+      vStepCfg == {<<"C07", "ConfigStepTooLarge", <<n, ln.entries[k][1], ExpCfg(dlog[n], dsnaps[n])[2], ln.entries[k][4]>>>> :
+                     k \in {j \in cfgK : LET p == ExpCfg(dlog[n], dsnaps[n])[2]
+                                              a == Voters(tab, p)
+                                              b == Voters(tab, ln.entries[j][4])
+                                          IN p # NoCfg /\ Cardinality((a \ b) \cup (b \ a)) > 1}}
   IN /\ g' = [g EXCEPT !.dur[n] = d2, !.grants = @ \cup gr, !.agreed = ag2]
      /\ dlog' = dl2 /\ obs' = o2
-     /\ Judge(V \cup conf, {}) /\ UNCHANGED <<hdr, dsnaps>>
+     /\ Judge(V \cup conf \cup vStepCfg, {}) /\ UNCHANGED <<hdr, dsnaps>>
 
 DoFsm(ln) ==
   LET n == ln.n IN
@@ -463,12 +482,13 @@ DoStartFail(ln) ==
 
 DoInvoke(ln) ==
   /\ g' = [g EXCEPT !.inv = [p \in {ln.op} |-> [line |-> l, t |-> ln.t, n |-> ln.n, up |-> (IF Has(ln, "nodeup") THEN ln.nodeup ELSE TRUE),
-                                                 term |-> (IF Has(ln, "term") THEN ln.term ELSE 0), kind |-> ln.kind]] @@ @]
+                                                 term |-> (IF Has(ln, "term") THEN ln.term ELSE 0), kind |-> ln.kind,
+                                                 cl |-> (IF ln.n \in DOMAIN obs THEN obs[ln.n].cl ELSE NoCfg)]] @@ @]
   /\ Quiet /\ Keep
 
 DoReturn(ln) ==
   LET n   == ln.n
-      iv  == IF ln.op \in DOMAIN g.inv THEN g.inv[ln.op] ELSE [line |-> 0, t |-> 0, n |-> n, up |-> TRUE, term |-> 0, kind |-> ln.kind]
+      iv  == IF ln.op \in DOMAIN g.inv THEN g.inv[ln.op] ELSE [line |-> 0, t |-> 0, n |-> n, up |-> TRUE, term |-> 0, kind |-> ln.kind, cl |-> obs[n].cl]
       ok  == ln.err = ""
       i   == ln.idx
       defFail == ln.err \in {"NotLeader", "EnqueueTimeout", "TransferInProgress"}
@@ -483,14 +503,18 @@ DoReturn(ln) ==
                   THEN {<<"C08", "BarrierBeforeApply", <<n, ln.op, i, k>>>> :
                           k \in {j \in DOMAIN g.agreed : j < i /\ g.agreed[j][2] = "cmd" /\ j > g.fsmLast[n] /\ j > MaxSet(g.burned)}}
                   ELSE {}
-      vs  == Voters(tab, obs[n].cl)
-      fresh == {q \in vs : q = n \/ (<<n, iv.term, q>> \in DOMAIN g.lastAck /\ g.lastAck[<<n, iv.term, q>>] > iv.line)}
+      \* the voting members: of the configuration in force when the call was made or of the one in force when it returned
+      \* (a change appended in between may or may not have been in force when the call was counted)
+      vsR == Voters(tab, obs[n].cl)
+      vsI == Voters(tab, iv.cl)
+      Fresh(vs) == {q \in vs : q = n \/ (<<n, iv.term, q>> \in DOMAIN g.lastAck /\ g.lastAck[<<n, iv.term, q>>] > iv.line)}
       \* weaker: acknowledgements that REACHED the caller after the call (they may have been produced before it)
-      late  == {q \in vs : q = n \/ (<<n, iv.term, q>> \in DOMAIN g.lastAckR /\ g.lastAckR[<<n, iv.term, q>>] > iv.line)}
-      vVerify == IF ln.kind = "verify" /\ ok /\ ~(2 * Cardinality(late) > Cardinality(vs))
-                 THEN {<<"C09", "VerifiedWithoutMajorityOfVoters", <<n, ln.op, iv.term, late, vs>>>>}
-                 ELSE IF ln.kind = "verify" /\ ok /\ ~(2 * Cardinality(fresh) > Cardinality(vs))
-                 THEN {<<"C09", "VerifiedOnAckProducedBeforeCall", <<n, ln.op, iv.term, fresh, vs>>>>} ELSE {}
+      Late(vs)  == {q \in vs : q = n \/ (<<n, iv.term, q>> \in DOMAIN g.lastAckR /\ g.lastAckR[<<n, iv.term, q>>] > iv.line)}
+      Maj(A, vs) == 2 * Cardinality(A) > Cardinality(vs)
+      vVerify == IF ln.kind = "verify" /\ ok /\ ~Maj(Late(vsR), vsR) /\ ~Maj(Late(vsI), vsI)
+                 THEN {<<"C09", "VerifiedWithoutMajorityOfVoters", <<n, ln.op, iv.term, Late(vsR), vsR, Late(vsI), vsI>>>>}
+                 ELSE IF ln.kind = "verify" /\ ok /\ ~Maj(Fresh(vsR), vsR) /\ ~Maj(Fresh(vsI), vsI)
+                 THEN {<<"C09", "VerifiedOnAckProducedBeforeCall", <<n, ln.op, iv.term, Fresh(vsR), vsR>>>>} ELSE {}
       vDown == IF ~iv.up /\ ln.err # "Shutdown" THEN {<<"C17", "CallAfterShutdownNotRefused", <<n, ln.op, ln.kind, ln.err>>>>} ELSE {}
       vMember == IF ln.kind \in {"addvoter", "addnonvoter", "demote", "remove"} /\ ok
                     /\ ~(i \in DOMAIN g.agreed /\ g.agreed[i][2] = "cfg")
@@ -531,6 +555,12 @@ DoTick(ln) ==   \* time is about to advance from ln.t: every current leader must
 DoStopFaults(ln) == g' = [g EXCEPT !.stopAt = ln.t] /\ Quiet /\ Keep
 
 \* the harness says the cluster is at rest (faults stopped long ago, everything delivered): C12, C18, C20
+\* m's newest snapshot was written by a user Restore on m that the cluster never adopted: the leader's log holds
+\* a real entry, of another term, at the index the restore burned
+Abandoned(m, ld) ==
+  LET sn == dsnaps[m] IN
+  Len(sn) > 0 /\ sn[1].idx \in g.burned /\ sn[1].idx \in DOMAIN dlog[ld] /\ dlog[ld][sn[1].idx][1] # sn[1].term
+
 DoQuiesce(ln) ==
   LET L  == ActiveLeaders(obs)
       ld == CHOOSE x \in L : TRUE
@@ -539,7 +569,8 @@ DoQuiesce(ln) ==
                (IF Cardinality(L) = 1 THEN {} ELSE {<<"C12", "NotExactlyOneLeader", L>>})
                \cup (IF g.probeOK THEN {} ELSE {<<"C12", "ProbeWriteNotAcknowledged", ln.t>>})
                \cup (IF Cardinality(L) # 1 THEN {} ELSE
-                     {<<"C12", "MemberNotCaughtUp", <<m, obs[m].applied, obs[ld].commit>>>> :
+                     {<<"C12", (IF Abandoned(m, ld) THEN "MemberWithAbandonedRestoreNotCaughtUp" ELSE "MemberNotCaughtUp"),
+                        <<m, obs[m].applied, obs[ld].commit>>>> :
                         m \in {x \in members : obs[x].applied < obs[ld].commit}})
       vFsm  == {<<"C20", "FinalFSMNotAgreedState", <<m, ln.fsm[m]>>>> :
                  m \in {x \in servers : obs[x].up /\ x \in DOMAIN ln.fsm
